@@ -412,6 +412,90 @@ pub fn scheme<S: HideOps>(rec: &mut Rec) {
     }
 }
 
+/// One `commit` call over several polynomials with mixed hiding settings: every member must get the
+/// commitment and state it would get on its own (non-hiding members: the plain key-defined
+/// commitment and an empty state; hiding members: their own fresh blinding).
+pub fn mixed_batches<S: HideOps>(rec: &mut Rec) {
+    let cfg = match S::NAME {
+        "IPA" => KeyCfg::uni(7, 7, 3, None),
+        "PST" => KeyCfg::mv(2, 3, 3),
+        _ => KeyCfg::uni(6, 5, 4, Some(vec![2, 4, 5])),
+    };
+    let keys = match build_keys::<S>(&cfg, rec.seed) {
+        Ok(k) => k,
+        Err(_) => return,
+    };
+    let shapes = crate::source::shapes_short::<S>(&cfg, rec.seed);
+    let pa = shapes[shapes.len() - 1].1.clone();
+    let pb = shapes[shapes.len() / 2].1.clone();
+    let bound = if S::BOUNDS { if S::NAME == "IPA" { Some(7) } else { Some(5) } } else { None };
+    // hiding pattern per position: H = hiding, N = non-hiding
+    for pattern in ["HN", "NH", "HNH", "HNN", "NHN", "HHN", "NNH", "HbN", "NbH"] {
+        let id = format!("{}/hide/batch/{}", S::NAME, pattern);
+        if !rec.take(&id) {
+            continue;
+        }
+        rec.dim("scheme", S::NAME);
+        let mut polys: Vec<LP<S>> = Vec::new();
+        let mut with_bound = false;
+        for ch in pattern.chars() {
+            if ch == 'b' {
+                with_bound = true;
+                continue;
+            }
+            let i = polys.len();
+            let p = if i % 2 == 0 { pa.clone() } else { pb.clone() };
+            let b = if with_bound && S::degree(&p) <= bound.unwrap_or(0) { bound } else { None };
+            polys.push(lp::<S>(&format!("m{}", i), p, b, if ch == 'H' { Some(1) } else { None }));
+        }
+        let mut rng = seed_rng(rec.seed, 0);
+        let (cms, sts) = match do_commit::<S>(&keys.ck, &polys, Some(&mut rng as &mut dyn RngCore)) {
+            Ok(x) => x,
+            Err(o) => {
+                viol(rec, S::NAME, "commit/in-domain", &id, format!("batch commit failed: {}", o.short()));
+                continue;
+            }
+        };
+        rec.op(1);
+        let mut ok = true;
+        let mut blind_seen: Vec<Vec<S::F>> = Vec::new();
+        for (i, p) in polys.iter().enumerate() {
+            rec.count_points(1);
+            match S::structure(&keys, p, &cms[i], &sts[i]) {
+                Err(e) => {
+                    ok = false;
+                    viol(rec, S::NAME, "commit/batch-blinding-identity", &id, format!("member {} of a mixed batch: {}", i, e));
+                }
+                Ok(parts) => {
+                    if p.hiding_bound().is_none() {
+                        // alone, this polynomial gets the plain commitment and an empty state
+                        let alone = do_commit::<S>(&keys.ck, &[p.clone()], None);
+                        let same = match &alone {
+                            Ok((c1, s1)) => ser(c1[0].commitment()) == ser(cms[i].commitment()) && ser(&s1[0]) == ser(&sts[i]),
+                            Err(_) => false,
+                        };
+                        if !same || !S::state_is_empty(&sts[i]) {
+                            ok = false;
+                            viol(rec, S::NAME, "commit/batch-nonhiding-member-blinded", &id, format!("non-hiding member {} of a mixed batch does not get the commitment / empty state it gets on its own", i));
+                        }
+                    } else {
+                        for part in parts.iter() {
+                            if part.is_empty() || blind_seen.contains(part) {
+                                ok = false;
+                                viol(rec, S::NAME, "commit/batch-blinding-reused", &id, format!("hiding member {} of a mixed batch has no fresh blinding of its own", i));
+                            }
+                            blind_seen.push(part.clone());
+                        }
+                    }
+                }
+            }
+        }
+        rec.class(if ok { "batch-structure-ok" } else { "batch-structure-violated" });
+        rec.obs(&format!("{}|batch|{}|{}", S::NAME, pattern, ok));
+        rec.sample(&format!("{}-batch", S::NAME), id.clone());
+    }
+}
+
 /// Hyrax: every commitment is blinded row by row.
 pub fn hyrax(rec: &mut Rec) {
     for nv in [2usize, 4] {
@@ -575,5 +659,9 @@ pub fn run(rec: &mut Rec) {
     scheme::<SSon>(rec);
     scheme::<SPst>(rec);
     scheme::<SIpa>(rec);
+    mixed_batches::<SMar>(rec);
+    mixed_batches::<SSon>(rec);
+    mixed_batches::<SPst>(rec);
+    mixed_batches::<SIpa>(rec);
     hyrax(rec);
 }
